@@ -4,9 +4,11 @@
    classification "mutating" measured on a writable twin. *)
 From Coq Require Import List NArith Bool String Ascii.
 From PyFS Require Import Gen.Dispatch_gen.
+From PyFS Require Import Base.PyStr Base.Outcome FS.Tree FS.Monad FS.Mode FS.Base FS.Mem FS.Ops FS.Wrap
+     FS.ReadOnly FS.ReadOnlyProofs.
 Import ListNotations.
 
-Definition lit (x : string) : list N := List.map N_of_ascii (list_ascii_of_string x).
+Definition slit (x : string) : list N := List.map N_of_ascii (list_ascii_of_string x).
 Fixpoint leq (a b : list N) : bool :=
   match a, b with
   | [], [] => true
@@ -23,16 +25,16 @@ Definition r_mut (r : row) := snd r.
 (* every mutating method of the read-only wrapper resolves to an implementation that is not
    WrapFS's (which would delegate straight to the wrapped filesystem) *)
 Theorem C04_mutators_not_delegated :
-  forallb (fun r => negb (leq (r_class r) (lit "WrapReadOnly")) || negb (r_mut r)
-                    || negb (leq (r_impl r) (lit "WrapFS"))) dispatch_table = true.
+  forallb (fun r => negb (leq (r_class r) (slit "WrapReadOnly")) || negb (r_mut r)
+                    || negb (leq (r_impl r) (slit "WrapFS"))) dispatch_table = true.
 Proof. vm_compute. reflexivity. Qed.
 Print Assumptions C04_mutators_not_delegated.
 
 (* the essential mutators of the read-only archive classes are their own (raising) ones *)
-Definition essential_mutators := [lit "makedir"; lit "openbin"; lit "remove"; lit "removedir"; lit "setinfo"].
+Definition essential_mutators := [slit "makedir"; slit "openbin"; slit "remove"; slit "removedir"; slit "setinfo"].
 Theorem C04_archive_essentials_own :
   forallb (fun r =>
-     negb ((leq (r_class r) (lit "ReadZipFS") || leq (r_class r) (lit "ReadTarFS"))
+     negb ((leq (r_class r) (slit "ReadZipFS") || leq (r_class r) (slit "ReadTarFS"))
            && existsb (leq (r_method r)) essential_mutators)
      || leq (r_impl r) (r_class r)) dispatch_table = true.
 Proof. vm_compute. reflexivity. Qed.
@@ -40,6 +42,57 @@ Print Assumptions C04_archive_essentials_own.
 
 (* non-vacuity: the table has rows for the wrapper and some of them are mutating *)
 Theorem C04_table_nonvacuous :
-  existsb (fun r => leq (r_class r) (lit "WrapReadOnly") && r_mut r) dispatch_table = true.
+  existsb (fun r => leq (r_class r) (slit "WrapReadOnly") && r_mut r) dispatch_table = true.
 Proof. vm_compute. reflexivity. Qed.
 Print Assumptions C04_table_nonvacuous.
+
+(* ---- the read-only wrapper model (FS/ReadOnly.v; tied to the real fs.wrap.read_only(MemoryFS) on every run:
+   outcome and storage tree after every call of generated histories) ---- *)
+
+(* a refused call changes nothing and raises ResourceReadOnly, whatever its arguments *)
+Theorem C04_ro_refuses : forall inner o s, mutating o = true -> ro_run inner o s = (s, Err ResourceReadOnly).
+Proof. exact ro_refuses. Qed.
+Print Assumptions C04_ro_refuses.
+
+(* the calls that are let through do not modify a MemoryFS, a WrapFS, a SubFS at any depth *)
+Theorem C04_mem_nonmutating_pure : forall o s, mutating o = false -> fst (mem_run o s) = s.
+Proof. exact mem_nonmutating_pure. Qed.
+Print Assumptions C04_mem_nonmutating_pure.
+
+Theorem C04_wrapfs_nonmutating_pure : forall o s, mutating o = false -> fst (wrapfs_run o s) = s.
+Proof. exact wrapfs_nonmutating_pure. Qed.
+Print Assumptions C04_wrapfs_nonmutating_pure.
+
+Theorem C04_nested_subfs_nonmutating_pure : forall ds o s, mutating o = false -> fst (nested_subfs_run ds o s) = s.
+Proof. exact nested_subfs_nonmutating_pure. Qed.
+Print Assumptions C04_nested_subfs_nonmutating_pure.
+
+(* NO sequence of calls through a read-only view changes the wrapped filesystem (any wrapped model whose
+   let-through calls are pure), and each refused call reports ResourceReadOnly *)
+Theorem C04_ro_history_unchanged : forall inner,
+  (forall o s, mutating o = false -> fst (inner o s) = s) -> forall ops s, fst (run_ops (ro_run inner) s ops) = s.
+Proof. exact ro_history_unchanged. Qed.
+Print Assumptions C04_ro_history_unchanged.
+
+Theorem C04_ro_history_outcomes : forall inner,
+  (forall o s, mutating o = false -> fst (inner o s) = s) -> forall ops s,
+  snd (run_ops (ro_run inner) s ops) = map (fun o => if mutating o then Err ResourceReadOnly else snd (inner o s)) ops.
+Proof. exact ro_history_outcomes. Qed.
+Print Assumptions C04_ro_history_outcomes.
+
+Theorem C04_ro_mem_history_unchanged : forall ops s, fst (run_ops ro_mem_run s ops) = s.
+Proof. exact ro_mem_history_unchanged. Qed.
+Print Assumptions C04_ro_mem_history_unchanged.
+
+Theorem C04_ro_sub_history_unchanged : forall d ops s, fst (run_ops (ro_sub_run d) s ops) = s.
+Proof. exact ro_sub_history_unchanged. Qed.
+Print Assumptions C04_ro_sub_history_unchanged.
+
+Theorem C04_ro_ro_mem_history_unchanged : forall ops s, fst (run_ops ro_ro_mem_run s ops) = s.
+Proof. exact ro_ro_mem_history_unchanged. Qed.
+Print Assumptions C04_ro_ro_mem_history_unchanged.
+
+(* nothing done through the read-only view is visible to any later call on the wrapped filesystem *)
+Theorem C04_ro_mem_invisible : forall ops s q, snd (mem_run q (fst (run_ops ro_mem_run s ops))) = snd (mem_run q s).
+Proof. exact ro_mem_invisible. Qed.
+Print Assumptions C04_ro_mem_invisible.
